@@ -166,6 +166,18 @@ def generate(seed, tier):
     g.rev("hrevolve", 7, 1, 1, COSTS[0], comp="stream.hrevolve.forloop")
     for i in range(k0, len(g.cases)):
         g.cases[i] = re.sub(r" r(\d+):(\d+)", lambda m: " " + " ".join(["l1:%s" % m.group(2)] * int(m.group(1))), g.cases[i])
+    # the same classes in an interpreter started with -O (assert statements compiled away): valid parameters only, since some
+    # argument checks of the library are assert statements
+    for kind in ("none", "mem", "disk0", "disk1"):
+        g.basic(kind, 5, 3, comp="stream.basic.pyO")
+    g.twolevel(9, 3, 2, "RAM", "max", 2, comp="stream.twolevel.pyO")
+    g.twolevel(8, 2, 1, "DISK", "rev", 2, comp="stream.twolevel.pyO")
+    for N, ram, disk, tr in [(3, 0, 2, "max"), (7, 2, 0, "rev"), (9, 1, 2, "max"), (12, 2, 2, "rev"), (30, 0, 3, "max")]:
+        g.multistage(N, ram, disk, tr, comp="stream.multistage.pyO")
+    for N, s_, kind in [(4, 1, "memo"), (9, 2, "tab"), (14, 3, "memo"), (14, 3, "tab")]:
+        g.mixed(N, s_, "DISK" if N % 2 else "RAM", kind, comp="stream.mixed.pyO")
+    for kind, N, r, d in [("revolve", 9, 2, 0), ("disk", 11, 1, 0), ("periodic", 11, 2, 0), ("hrevolve", 10, 1, 2), ("hrevolve", 12, 2, 1)]:
+        g.rev(kind, N, r, d, COSTS[0], comp="stream." + kind + ".pyO")
     # ---------------- Revolve family
     NN, RR, DD = (22, 4, 3) if thorough else (14, 3, 2)
     costs = COSTS if thorough else COSTS[:9]
@@ -207,6 +219,27 @@ def generate(seed, tier):
                              ("periodic", 300, 3, 0, COSTS[0]), ("hrevolve", 270, 3, 2, COSTS[0])] + \
                             ([("revolve", 420, 7, 0, COSTS[0]), ("hrevolve", 330, 2, 4, (1, 1, 1, 3)), ("disk", 380, 2, 0, (3, 1, 1, 1))] if thorough else []):
         g.rev(kind, N, r, d, c)
+    # many nested disk checkpoints: cheap disk storage next to an expensive forward step, one or two memory slots (round 9)
+    for kind, N, r, d, c in [("disk", 270, 1, 0, (3, 2, 1, 0)), ("periodic", 270, 1, 0, (3, 2, 1, 0)), ("disk", 300, 2, 0, (4, 1, 1, 1))] + \
+                            ([("disk", 400, 1, 0, (3, 2, 1, 0)), ("disk", 330, 1, 0, (5, 1, 1, 1)), ("hrevolve", 300, 1, 3, (4, 1, 1, 1))] if thorough else []):
+        g.rev(kind, N, r, d, c)
+    # costs of other magnitudes: totals beyond 10**6, 2**31 and 2**53 on short chains (a table initialised with a finite "infinity", a
+    # float in the way of an exact integer)
+    for c in [(10 ** 4, 1, 1, 1), (3, 10 ** 5, 2, 2), (10 ** 7, 3, 1000, 1)] + ([(10 ** 10, 7, 10 ** 6, 10 ** 5), (2 ** 40, 1, 1, 1)] if thorough else []):
+        for N in (25, 40):
+            for r in (1, 2):
+                g.rev("revolve", N, r, 0, c)
+                g.rev("disk", N, r, 0, c)
+                g.rev("periodic", N, r, 0, c)
+                for d in (0, 1):
+                    g.rev("hrevolve", N, r, d, c)
+    # TwoLevel periods beyond the random sizes, the chain ending one step after a period boundary (last block of length one) and in
+    # the middle of a block
+    for P in range(41, (200 if thorough else 128) + 1):
+        g.twolevel(P + 1, P, 1 + P % 3, "RAM" if P % 2 else "DISK", "max" if P % 3 else "rev", 2)
+        if thorough or P % 8 == 1:
+            g.twolevel(2 * P + 1, P, 2, "DISK", "rev", 2)
+            g.twolevel(2 * P + P // 2, P, 2, "RAM", "max", 2)
     # unit counts beyond 256 as well
     g.multistage(300, 280, 10, "max")
     g.multistage(300, 0, 290, "rev")
@@ -376,6 +409,9 @@ def generate(seed, tier):
             g.add("fn.mixed_steps_tabulation", "V tab %d %d" % (n, s))
     # one entry of the tabulated planner against the memoised one, at sizes where writing the whole table out is too much (values
     # beyond 32 bits with a single unit)
+    # more memoised sub-problems in one process than any one schedule creates (the memo is a module-level dictionary shared by all
+    # objects): the closed-form column s = 1, every n in turn
+    g.add("fn.mixed_step_memoization", "V memosweep 2 %d 1" % (140000 if thorough else 70000))
     for n, s in [(40, 4), (150, 1), (66000, 1), (70000, 1)] + ([(120, 6), (100000, 1)] if thorough else []):
         g.add("fn.mixed_steps_tabulation", "V tabmemo %d %d" % (n, s))
     for n in range(2, 31 if thorough else 19):
